@@ -46,9 +46,9 @@ def one(m, all_props):
     try:
         repo = d + "/repo"
         if "patch" in m:
-            r = subprocess.run(["patch", "-p1", "-s", "-i", m["patch"]], cwd=repo, stdout=subprocess.PIPE, stderr=subprocess.PIPE, text=True)
+            r = subprocess.run(["git", "apply", "--whitespace=nowarn", m["patch"]], cwd=repo, stdout=subprocess.PIPE, stderr=subprocess.PIPE, text=True)
             if r.returncode != 0:
-                return m["name"], "skipped", "patch does not apply: " + r.stdout[-200:], {}
+                return m["name"], "skipped", "patch does not apply: " + (r.stdout + r.stderr)[-200:], {}
         elif "rename" in m:
             # whole-word renames across src/ (module file names included)
             import re
